@@ -211,9 +211,21 @@ def _case(seed: int) -> Dict[str, Any]:
                     ok = False
                 steps = [("counters", None)]
                 if ok:
-                    steps += [("overlay", (False, False)), ("counters", None), ("overlay", (False, True)), ("overlay", (True, False))]
+                    steps += [("overlay", (False, False)), ("counters", None), ("overlay", (False, True)), ("overlay", (True, False)), ("whatif", None), ("overlay", (False, False)), ("overlay", (True, False))]
                 first = True
                 for kind, opt in steps:
+                    if kind == "whatif":
+                        # what-if on the same graph object: an edge off the path becomes heavy, the path is recomputed, the overlay is written again
+                        on_path = {(int(e.begin), int(e.end)) for e in g.critical_path_edges_set}
+                        off = sorted((int(u), int(v)) for u, v in g.edges if (int(u), int(v)) not in on_path)
+                        if not off:
+                            break
+                        u, v = off[seed % len(off)]
+                        g.edges[u, v]["weight"] = 100_000
+                        inp["reweighted_edge_then_critical_path_recomputed"] = [u, v]
+                        if not rt.lib(fails, "critical_path(after re-weighting)", inp, g.critical_path):
+                            break
+                        continue
                     if kind == "counters":
                         if not first:
                             rt.lib(fails, "generate_trace_with_counters(again)", inp, ta.generate_trace_with_counters, ranks=[0])
@@ -236,7 +248,7 @@ def _case(seed: int) -> Dict[str, Any]:
                         doc = rt.lib(fails, "read overlay file", {**inp, "file": os.path.basename(ofile)}, _load_json, ofile)
                         out = doc["traceEvents"]
                         n += 1
-                        crit = {int(x) for x in g.critical_path_events_set}
+                        crit = {int(g.node_list[int(x)].ev_idx) for x in g.critical_path_nodes}  # the events of the path's nodes (not the set the library keeps)
                         flows = [e for e in out if e.get("ph") in ("s", "f")]
                         body = [e for e in out if e.get("ph") not in ("s", "f")]
                         sel = {"only_show_critical_events": only_crit, "show_all_edges": all_edges}
